@@ -457,7 +457,10 @@ def run(ck, prog, ctx):
         # are not classified: the per-term rule is then undecided, never a violation
         outside = [t2 for hb in prog.production() if hb.file == sf.file and hb not in fam and hb.kind in ("Fn", "AssocFn") and hb.id in prog.reachable_bodies([sf.id]) for _, t2 in hb.calls() if (t2.callee.res or "").endswith("statrs::ln_binomial")]
         in_plain_loop = [x for x in lb if x[6].kind != "Closure" and x[6].loop_of(next(bi_ for bi_, t_ in x[6].calls() if t_ is x[7])) is not None]
-        unclassifiable = bool(outside) or bool(in_plain_loop)
+        # ... or through a private variant of ln_binomial (one that receives ln n! from the caller): it builds the term from ln_factorial itself
+        variant = [hb for hb in prog.production() if hb.file == sf.file and hb.kind in ("Fn", "AssocFn") and not hb.exported and not hb.reachable and not hb.id.endswith("statrs::ln_binomial")
+                   and any(t2.callee.res == hb.id for fb in fam for _, t2 in fb.calls()) and any((t3.callee.res or "").endswith("statrs::ln_factorial") for _, t3 in hb.calls())]
+        unclassifiable = bool(outside) or bool(in_plain_loop) or bool(variant)
         for x in lb:
             key = x[:6]
             nm = want.get(key)
@@ -602,7 +605,30 @@ def run(ck, prog, ctx):
             chain = adaptor_chain(lg, pvn, t.args[0])
             skips = [(b2, t2) for b2, t2 in lg.calls() if t2.callee.method == "skip" and lg.dominates(b2, bi) and b2 in lg.region((thr[0]["bb"], thr[0]["true_tg"] if (side == "x < 0.5") == (thr[0]["op"] == "Lt") else thr[0]["false_tg"]))] if thr else []
             okc = chain[:3] == ["skip", "enumerate", "iter"] and len(skips) == 1 and skips[0][1].args[1].int_value() == 1
-            ck.ob("TABLE", "ln_gamma/series-range/" + side, okc, "the series for %s runs over the coefficients %s" % (side, "1.. with their index (d0 is the start value)" if okc else "through %s (expected iter().enumerate().skip(1))" % chain[:4]), where=lg.where(t.line))
+            comp = {"0": "i", "1": "d_i"}
+            if chain[:3] == ["zip", "iter", "index"]:
+                # second spelling:  COEFFS[1..].iter().zip(1..)  - the element comes first, the running index (a counter from 1) second
+                def range_start(op_):
+                    for kind_, pos_, d_ in (pvn.defs(lg).get(op_.place.local, []) if op_.place is not None and op_.place.is_local() else []):
+                        if kind_ == "assign" and d_.rv["k"] == "agg" and re.search(r"::RangeFrom$", d_.rv.get("adt", "")) and d_.rv["ops"]:
+                            return d_.rv["ops"][0].int_value()
+                    return None
+                zs_ = [t2 for b2, t2 in lg.calls() if t2.callee.method == "zip" and lg.dominates(b2, bi) and len(t2.args) == 2]
+                is_ = [t2 for b2, t2 in lg.calls() if t2.callee.trait == "std::ops::Index" and lg.dominates(b2, bi) and len(t2.args) == 2 and "RangeFrom" in (t2.callee.def_args or "")]
+                s_zip = range_start(zs_[0].args[1]) if len(zs_) == 1 else None
+                s_idx = range_start(is_[0].args[1]) if len(is_) == 1 else None
+                if s_zip is None or s_idx is None:
+                    ck.undecided("TABLE", "ln_gamma/series-range/" + side, "the series runs over COEFFS[a..].iter().zip(b..) with starts that are not constants", where=lg.where(t.line))
+                    ck.undecided("TABLE", "ln_gamma/series-term/" + side, "see ln_gamma/series-range", where=lg.where(t.line))
+                    continue
+                comp = {"0": "d_i", "1": "i"}
+                ck.ob("TABLE", "ln_gamma/series-range/" + side, s_zip == 1 and s_idx == 1, "the series for %s runs over the coefficients %d.. paired with a counter from %d (expected both from 1: d0 is the start value)" % (side, s_idx, s_zip), where=lg.where(t.line))
+            elif chain[:3] != ["skip", "enumerate", "iter"] and not any(m in ("skip", "enumerate") for m in chain):
+                ck.undecided("TABLE", "ln_gamma/series-range/" + side, "the series runs over the coefficients through %s: a spelling of `coefficient i with its index i, from 1` that is not read" % chain[:4], where=lg.where(t.line))
+                ck.undecided("TABLE", "ln_gamma/series-term/" + side, "see ln_gamma/series-range", where=lg.where(t.line))
+                continue
+            else:
+              ck.ob("TABLE", "ln_gamma/series-range/" + side, okc, "the series for %s runs over the coefficients %s" % (side, "1.. with their index (d0 is the start value)" if okc else "through %s (expected iter().enumerate().skip(1))" % chain[:4]), where=lg.where(t.line))
             init = t.args[1]
             iv = None
             if init.place is not None and init.place.is_local():
@@ -622,13 +648,13 @@ def run(ck, prog, ctx):
             if cb is None:
                 ck.undecided("TABLE", "ln_gamma/series-term/" + side, "fold closure not found", where=lg.where(t.line))
                 continue
-            def cleaf(ex, body, kind, obj, _cb=cb):
+            def cleaf(ex, body, kind, obj, _cb=cb, comp=comp):
                 if body is not _cb:
                     return None
                 if kind == "place":
                     es = [e for e in obj.fields() if e != "*"]
                     if obj.local == 3 and len(es) == 1 and es[0][0] == "f":
-                        return S("d_i" if es[0][1] == "1" else "i")
+                        return S(comp.get(es[0][1], "?"))
                     if obj.local == 2 and not es:
                         return S("acc")
                     if obj.local == 1 and es and es[0][0] == "f" and es[0][1].endswith("x"):
@@ -639,7 +665,7 @@ def run(ck, prog, ctx):
                     if idx == 2 and not pe:
                         return S("acc")
                     if idx == 3 and len(pe) == 1 and pe[0][0] == "f":
-                        return S("d_i" if pe[0][1] == "1" else "i")
+                        return S(comp.get(pe[0][1], "?"))
                 if kind == "call":
                     tt = obj
                     tgt = prog.bodies.get(tt.callee.res) if tt.callee.res else None
